@@ -328,7 +328,7 @@ SERVER_PROPS = {
                                 2500, 40000, {"fresh": 1, "faults": 0}),
                   # response backlog: unready sink, full response buffer, handlers parked on the response send, then cancels
                   dict(server_family([sexport("cancel-backlog", MaxInc=3, SinkMode='"coupled"', CancelBudget=1, AllowEof=False, cap_quick=1500, sim_quick=3000)],
-                                     2000, 30000, {"fresh": 1, "faults": 0, "mode": "coupled", "limit": "-1", "reqs": 6, "appdrop": 0}), tag="backlog")],
+                                     2000, 30000, {"fresh": 1, "faults": 0, "mode": "coupled", "limit": "-1", "reqs": 6, "appdrop": 0, "backlog": 1}), tag="backlog")],
         relevant=lambda e: has(e, "Cancel"),
     ),
     "C06": dict(
